@@ -181,14 +181,74 @@ def updateAll (E : Asm.Engine) (cfg : Asm.Config) (o1 o2 : Parser.Ord) : Globals
         | (g', .ok t') => updateAll E cfg o1 o2 g' t' rest
     else updateAll E cfg o1 o2 g t rest
 
+def assemblyPath (fileName : Bytes) : Bytes := b!"regex-assembly/" ++ fileName
+
+/-! ### regex compare -/
+
+/-- `processRegexForCompare` after `runAssemble`: is the stored operand the generated regex?
+    `.error` = a fatal error (assembly fails, rules file missing or ambiguous, rule not found) -/
+def compareRule (E : Asm.Engine) (cfg : Asm.Config) (o1 o2 : Parser.Ord) (t : Tree) (input id : Bytes) (offset : Nat) :
+    Except Fault Bool :=
+  match (runFile E cfg o1 o2 {} (fsOf t) input).2 with
+  | .error e => .error e
+  | .ok re =>
+    match rulesFileOf t id with
+    | none => .error .diag
+    | some rp =>
+      match lookup rp t with
+      | none => .error .diag
+      | some rc =>
+        match Update.readCurrentRegex rc id offset with
+        | .error e => .error e
+        | .ok cur => .ok (cur == re)
+
+/-- what a compare run reports: the rules found up to date and out of date, in walk order, and the exit status -/
+structure CompareResult where
+  unchanged : List Bytes
+  changed : List Bytes
+  ok : Bool
+
+/-- `regex compare --all`: every rule file in walk order; a rule that is out of date is reported and the walk goes on;
+    a fatal error ends the run with a non-zero status. At the end the status is non-zero in GitHub mode when some rule was
+    out of date (in text mode an out-of-date rule does not change the status of an `--all` run). -/
+def compareAll (E : Asm.Engine) (cfg : Asm.Config) (o1 o2 : Parser.Ord) (github : Bool) (t : Tree) :
+    List (Bytes × Bytes) → CompareResult
+  | [] => ⟨[], [], true⟩
+  | (p, b) :: rest =>
+    if isFormatTarget p then
+      match ruleOfFileName (baseName p) with
+      | none => compareAll E cfg o1 o2 github t rest
+      | some none => ⟨[], [], false⟩
+      | some (some (id, k)) =>
+        match compareRule E cfg o1 o2 t b id k with
+        | .error _ => ⟨[], [], false⟩
+        | .ok true =>
+          let r := compareAll E cfg o1 o2 github t rest
+          ⟨id :: r.unchanged, r.changed, r.ok⟩
+        | .ok false =>
+          let r := compareAll E cfg o1 o2 github t rest
+          ⟨r.unchanged, id :: r.changed, r.ok && !github⟩
+    else compareAll E cfg o1 o2 github t rest
+
+/-- `regex compare ARG` (either output mode): status 0 exactly when the stored operand is the generated regex -/
+def compareCmd (E : Asm.Engine) (cfg : Asm.Config) (o1 o2 : Parser.Ord) (t : Tree) (arg : Bytes) : CompareResult :=
+  match Update.parseRuleId arg with
+  | .error _ => ⟨[], [], false⟩
+  | .ok ra =>
+    match lookup (assemblyPath ra.fileName) t with
+    | none => ⟨[], [], false⟩
+    | some b =>
+      match compareRule E cfg o1 o2 t b ra.id ra.chainOffset with
+      | .error _ => ⟨[], [], false⟩
+      | .ok true => ⟨[ra.id], [], true⟩
+      | .ok false => ⟨[], [ra.id], false⟩
+
 /-! ### single-target commands: stdout, tree, success -/
 
 structure CmdResult where
   stdout : Bytes
   tree : Tree
   ok : Bool
-
-def assemblyPath (fileName : Bytes) : Bytes := b!"regex-assembly/" ++ fileName
 
 /-- `regex generate ARG`: the regex on stdout (`os.Stdout.WriteString`, no newline), or nothing and a non-zero exit status -/
 def generateCmd (E : Asm.Engine) (cfg : Asm.Config) (o1 o2 : Parser.Ord) (t : Tree) (arg : Bytes) : CmdResult :=
